@@ -180,7 +180,16 @@ func (p *cparser) parseTop() (*CExpr, error) {
 			if v.k != "id" {
 				return nil, fmt.Errorf("%s: quantifier variable expected", p.pos)
 			}
-			vars = append(vars, v.s)
+			name := v.s
+			if p.isOp(":") {
+				p.next()
+				ty := p.next()
+				if ty.k != "id" {
+					return nil, fmt.Errorf("%s: sort name expected after ':'", p.pos)
+				}
+				name += ":" + ty.s
+			}
+			vars = append(vars, name)
 			if p.isOp(",") {
 				p.next()
 				continue
@@ -482,6 +491,7 @@ type PanicClause struct {
 }
 
 type LoopSpec struct {
+	Asserts   []*Clause // proved at the end of the loop body (before the post statement), then assumed
 	Invs      []*Clause
 	Decreases *Clause
 	AssumeTerm bool // decreases _
@@ -746,6 +756,12 @@ func (cs *ContractSet) ReadFile(path, pkgName string, external bool) error {
 						return err
 					}
 					ls.Invs = append(ls.Invs, &Clause{Tags: t2, E: e, Src: body, Pos: l.pos})
+				case "assert":
+					e, err := ParseCExpr(body, l.pos)
+					if err != nil {
+						return err
+					}
+					ls.Asserts = append(ls.Asserts, &Clause{Tags: t2, E: e, Src: body, Pos: l.pos})
 				case "decreases":
 					if body == "_" {
 						ls.AssumeTerm = true
